@@ -12,7 +12,7 @@ TECHNIQUE = "seeded operation/fault-sequence search against a dict reference mod
 RULE = ("family 'seq': a backend (SqliteStorage on a real file in a scratch directory | SqliteStorage on ':memory:' | the repo's MockStorage fixture) driven by 3-25 calls drawn from create / update / delete / "
         "read / read_all(tag) / read_all() over 3 tags with ids that deliberately collide across tags (every id ever returned is tried under every tag, plus never-issued ids), values empty, 1-byte, non-UTF-8, "
         "100 KiB and integers (as the cursor code stores them); interleaved with close+reopen, 'a second connection on the same file reads everything', and - as the crash analogue - 'copy the database "
-        "file and its -wal at a statement boundary and open the copy'. Every return value is compared with a dict (tag,id)->value model, call by call. family 'threads': 2-3 sim-threads issue creates and "
+        "file and its -wal at a statement boundary and open the copy'. Every return value is compared with a dict (tag,id)->value model, call by call. 15 % of the sequential cases are 'hot row' histories on SQLite (one tag, two values, the first three ids: the same row is updated, deleted, re-created under the row id SQLite hands out again, and updated again with bytes it held before). family 'threads': 2-3 sim-threads issue creates and "
         "updates on shared and disjoint tags of one SqliteStorage file while the scheduler pre-empts between traced lines of sqlite_storage.py; after joining, exactly the acknowledged rows are present. "
         "distinct = (backend, op-kind sequence) resp. (thread scripts, scheduler digest); non-trivial = >=1 cross-tag id collision attempted or >=1 reopen/copy, resp. >=2 thread switches inside storage calls.")
 ASSUMPTIONS = ["the interleaving inside sqlite's C code is outside the simulator (calls are atomic at the Python line level)", "'crash' = the files as they are at a statement boundary (journal_mode=WAL, autocommit): torn pages / lost fsyncs are outside the statement",
@@ -256,6 +256,28 @@ def generate(rng, tier, index):
                 sc.append([k, rng.randrange(3) if k == "create" else rng.randrange(8)])
             scripts.append(sc)
         return _evaluate({"prop": ID, "family": "threads", "scripts": scripts, "sched_seed": rng.randrange(1 << 30), "preempt_p": rng.choice([0.0, 0.1, 0.3]), "cfg": {}})
+    if rng.random() < 0.15:
+        # 'hot row' histories on the SQLite backend: one tag, two values, the first three ids - so that the same row is updated, deleted,
+        # re-created (SQLite hands the freed top row id out again) and updated again with bytes it has held before
+        backend = rng.choice(["file", "memory"])
+        tag = rng.randrange(3)
+        vals = [rng.randrange(len(VALUES)), rng.randrange(len(VALUES))]
+        plan = [["create", tag, rng.choice(vals)] for _ in range(rng.randint(1, 3))]
+        for _ in range(rng.randint(4, 14)):
+            r = rng.random()
+            if r < 0.3:
+                plan.append(["update", tag, rng.randrange(3), rng.choice(vals)])
+            elif r < 0.5:
+                plan.append(["delete", tag, rng.randrange(3)])
+            elif r < 0.65:
+                plan.append(["create", tag, rng.choice(vals)])
+            elif r < 0.85:
+                plan.append(["read", tag, rng.randrange(3)])
+            elif r < 0.95:
+                plan.append(["read_all", rng.choice([None, tag])])
+            else:
+                plan.append(["reopen"])
+        return _evaluate({"prop": ID, "family": "seq", "backend": backend, "plan": plan, "cfg": {}})
     backend = rng.choice(["file", "file", "memory", "mock"])
     plan = []
     for _ in range(rng.randint(3, 25)):
